@@ -5,7 +5,7 @@ namespace Driver.Watch
 
 def fsOfName (n : String) : Option FsOp :=
   match n with
-  | "writeInPlace" | "writeViaTemp" | "rewrite" | "unlink" | "renameAway" => some .writeSpec
+  | "writeInPlace" | "writeViaTemp" | "rewrite" | "unlink" | "renameAway" | "writeBad" => some .writeSpec
   | "moveIn" | "linkIn" | "creatEmpty" | "moveInOld" | "linkInOld" => some .moveIn
   | "tempFile" => some .tempFile
   | "rmdir" => some .rmdir
